@@ -679,6 +679,26 @@ def check_limits(desc, ctx):
             raise Violation(f"{what}: result differs from psd_dft of the isotherm reduced to the {len(inside)} points "
                             f"inside the limits (fitted points {len(res['kernel_loading'])} vs {len(res_sub['kernel_loading'])}, "
                             f"max loading difference {dmax:.3g})", tag="limits_subset")
+        if limits is None and branch == "ads" and not foreign and N >= 4:
+            # the same points stored in another table order (a few low-pressure points measured last, appended at the
+            # end): without limits nothing depends on the order of the rows - every fitted value still belongs
+            # to its own pressure
+            kk = 1 + int(desc["rng"]) % min(5, N - 1)
+            perm = list(range(kk, N)) + list(range(kk))
+            try:
+                res_p = run(mk_iso(P[perm], L[perm]), None)
+            except CalculationError as e:
+                raise Violation(f"{what}: the same points stored in another row order are refused ({e})", tag="row_order")
+            kl, klp = np.asarray(res["kernel_loading"], dtype=float), np.asarray(res_p["kernel_loading"], dtype=float)
+            # (the fitted isotherm is compared, at 1e-6: the distribution behind it is the solution of an ill-conditioned
+            # least-squares problem whose last digits may depend on the order of the rows)
+            if not (klp.shape == kl.shape
+                    and np.allclose(klp, kl[perm], rtol=1e-6, atol=1e-9 * float(np.max(np.abs(kl))))):
+                raise Violation(f"{what}: the same points stored in another row order (first {kk} points moved to the end) "
+                                f"give another result: max |fitted loading difference| "
+                                f"{float(np.max(np.abs(klp - kl[perm]))) if klp.shape == kl.shape else 'shape'}",
+                                tag="row_order")
+            ctx.label("row_order_variant")
         got = tuple(int(v) for v in res["limits"])
         if got != (inside[0], inside[-1]):
             raise Violation(f"{what}: reported index window {got} but the points inside the limits are "
